@@ -165,7 +165,7 @@ struct Pool {
     uint64_t round_no = 0;
     std::atomic<uint32_t> gen{0}; std::atomic<int> sleepers{0};
     void wake() { gen.fetch_add(1); if (sleepers.load() > 0) syscall(SYS_futex, (uint32_t*)&gen, 1 /*FUTEX_WAKE*/, 1 << 30, nullptr, nullptr, 0); }
-    std::atomic<int> arrived{0}, finished{0};
+    std::atomic<int> arrived{0}, finished{0}, waiter_asleep{0};
     int n_active = 0;
     std::function<void(int)> job;
     explicit Pool(int n) {
@@ -188,14 +188,26 @@ struct Pool {
                     arrived.fetch_add(1);
                     int s2 = 0; while (arrived.load(std::memory_order_acquire) < na) relax(s2);      // spin barrier: the short sequences really overlap
                     job(t);
-                    finished.fetch_add(1, std::memory_order_release);
+                    finished.fetch_add(1, std::memory_order_seq_cst);
+                    if (waiter_asleep.load(std::memory_order_seq_cst)) syscall(SYS_futex, (uint32_t*)&finished, 1 /*FUTEX_WAKE*/, 1, nullptr, nullptr, 0);
                 }
             }
         });
     }
     void start(int n, std::function<void(int)> f) { job = std::move(f); n_active = n; arrived.store(0); finished.store(0); word.store((++round_no << 8) | (uint64_t)n); wake(); }
     bool done() const { return finished.load(std::memory_order_acquire) >= n_active; }
-    void wait() { int s = 0; while (!done()) relax(s); }
+    // The coordinator spins for a few ms, then blocks until the last worker finishes: while workers are wedged inside the queue it
+    // is asleep, so a spin-stall verdict needs the CPU budget from the wedged threads only.
+    void wait() {
+        int s = 0;
+        while (!done()) {
+            if (++s < 20000) { if (s < 64) _mm_pause(); else sched_yield(); continue; }
+            waiter_asleep.store(1, std::memory_order_seq_cst);
+            int f = finished.load(std::memory_order_seq_cst);
+            if (f < n_active) syscall(SYS_futex, (uint32_t*)&finished, 0 /*FUTEX_WAIT*/, f, nullptr, nullptr, 0);
+            waiter_asleep.store(0, std::memory_order_seq_cst);
+        }
+    }
 };
 
 // ------------------------------------------------------------------------------------------------ hang context
@@ -713,7 +725,8 @@ int main(int argc, char** argv) {
         PQ<El<F_PLAIN>> q0; do_op(q0, K_PUSH, mkval(1, 1)); do_op(q0, K_TRY_POP, 0);
         if (hook_count(170) < 2 || hook_count(171) < 2) { fprintf(stderr, "[c13] aggregator verification hooks are not compiled in\n"); R.stat("no_hooks"); R.write(); return 2; }
     }
-    watchdog_start(WatchdogCfg{}, on_hang);
+    WatchdogCfg wc; wc.hard_limit_s = mode == "A" ? 700.0 : 300.0;      // the verdicts are quiescence / CPU-time spin-stall; this only bounds an inconclusive stall
+    watchdog_start(wc, on_hang);
     for (long k = 0; k < cases; k++) {
         char cls;
         if (mode == "mix") { static const char rot[] = "LLLKLLGLLLLKLLLSLLKLLGLLLLKLLLLLLKLGLLLL"; cls = rot[k % (sizeof rot - 1)]; }
